@@ -316,7 +316,9 @@ Record J (s : st) (m : mon) : Prop := {
            | JNone => sent m KJoin = false /\ sent m KJoinAck = false /\ sess s = SNone
            | JSent n => sent m KJoinAck = false /\ mst s n = MRead /\ sess s = SJoin
            | JMgr n => mst s n = MRead
-           | JAcked => True end;
+           | JAcked => True
+           | JMgrRef n => mst s n = MRead
+           | JRefused => True end;
   j_leave : match leavest s with
             | LvNone => sent m KLeave = false /\ sent m KLeaveAck = false /\ sent m KStop = false
             | LvSent => sent m KLeaveAck = false /\ sent m KStop = false
@@ -347,9 +349,15 @@ Proof.
 Qed.
 
 Lemma reader_free_inv s : reader_free s = true ->
-  booted s = true /\ leavest s = LvNone /\ match joinst s with JSent _ | JMgr _ => False | _ => True end.
+  booted s = true /\ leavest s = LvNone /\ match joinst s with JSent _ | JMgr _ | JMgrRef _ | JRefused => False | _ => True end.
 Proof.
   unfold reader_free. destruct (booted s), (leavest s), (joinst s); cbn; intros H; try discriminate; auto.
+Qed.
+
+Lemma reader_can_stop_inv s : reader_can_stop s = true ->
+  booted s = true /\ leavest s = LvNone /\ match joinst s with JSent _ | JMgr _ | JMgrRef _ => False | _ => True end.
+Proof.
+  unfold reader_can_stop. destruct (booted s), (leavest s), (joinst s); cbn; intros H; try discriminate; auto.
 Qed.
 
 Lemma is_mst_inv s n x : is_mst s n x = true -> mst s n = x.
@@ -629,7 +637,7 @@ Proof.
   - intros n0. destruct (Nat.eq_dec n0 n) as [->|Hn].
     + unfold msg_ok. sset. rewrite updn_same. pose proof (Jm n) as H0. unfold msg_ok in H0. rewrite Hm in H0. exact H0.
     + neq_facts. apply (msg_frame s m _ _ _ n0 (Jm n0) Hrun); [sset; unfold updn; rw_neq; reflexivity | reflexivity].
-  - sset. destruct (joinst s) as [|n0|n0|]; try exact Jj; try contradiction.
+  - sset. destruct (joinst s) as [|n0|n0| |n0|]; try exact Jj; try contradiction.
   - exact Jl.
   - exact Jr.
 Qed.
@@ -650,7 +658,9 @@ Ltac mfacts := repeat match goal with
 Ltac mgo := repeat first [progress msimp | progress mfacts | rewrite Nat.eqb_refl | rewrite updl_same | rewrite updk_same | rewrite mem_tid_cons | progress unfold owned_by, shareable].
 Ltac start_run :=
   match goal with |- exists m', mon_run ?m ?E = _ /\ _ => eassert (Hrun : mon_run m E = Some _) end.
-Ltac sstep H := cbn [step repaired v_share_header v_clear_handles v_log_serial app negb] in H.
+Ltac start_run_in :=
+  match goal with |- exists m', mon_run ?m ?E = _ /\ _ => eassert (Hrun : mon_run m E = Some _) end.
+Ltac sstep H := cbn [step repaired v_share_header v_clear_handles v_log_serial v_alias_buf app negb] in H.
 Ltac conn_tst :=
   let i1 := fresh "i1" in let H := fresh "H" in
   intros i1 H;
@@ -694,50 +704,84 @@ Proof.
   - sset. intros H. specialize (Jr H). rewrite Hsess in Jr. exact Jr.
 Qed.
 
-Lemma ok_MJoin s m s' evs : J s m -> step repaired s MJoin = Some (s', evs) ->
+Lemma ok_MJoin ok s m s' evs : J s m -> step repaired s (MJoin ok) = Some (s', evs) ->
   exists m', mon_run m evs = Some m' /\ J s' m'.
 Proof.
   intros HJ Hs. sstep Hs.
-  destruct (joinst s) as [|n|n|] eqn:Hjs; try discriminate. inv_some Hs.
+  destruct (joinst s) as [|n|n| |n|] eqn:Hjs; try discriminate.
   jdestruct HJ. rewrite Hjs in Jj. destruct Jj as [Jj1 [Jj2 Hsess]]. rewrite Hsess in HSess.
-  start_run. { mgo. reflexivity. }
-  eexists. split; [exact Hrun|].
-  constructor.
-  - exact Jb.
-  - exact Jh.
-  - intros l. destruct l as [| | | | | | | |n0|i0|i0|i0]; try solve [frames s m Jo Hrun].
-    cbn. rewrite HSess. reflexivity.
-  - intros i. apply (cmd_frame s m _ _ _ i (Jc i) Hrun); try reflexivity.
-    unfold sess_live. rewrite Hsess. contradiction.
-  - intros i. apply (tmr_frame s m _ _ _ i (Jt i) Hrun); reflexivity.
-  - intros n0. apply (msg_frame s m _ _ _ n0 (Jm n0) Hrun); reflexivity.
-  - sset. exact Jj2.
-  - exact Jl.
-  - sset. auto.
+  destruct ok; inv_some Hs.
+  - (* the key is free: registered *)
+    start_run. { mgo. reflexivity. }
+    eexists. split; [exact Hrun|].
+    constructor.
+    + exact Jb.
+    + exact Jh.
+    + intros l. destruct l as [| | | | | | | |n0|i0|i0|i0]; try solve [frames s m Jo Hrun].
+      cbn. rewrite HSess. reflexivity.
+    + intros i. apply (cmd_frame s m _ _ _ i (Jc i) Hrun); try reflexivity.
+      unfold sess_live. rewrite Hsess. contradiction.
+    + intros i. apply (tmr_frame s m _ _ _ i (Jt i) Hrun); reflexivity.
+    + intros n0. apply (msg_frame s m _ _ _ n0 (Jm n0) Hrun); reflexivity.
+    + sset. exact Jj2.
+    + exact Jl.
+    + sset. auto.
+  - (* the key is taken: refused; the closure's header copy stays with the manager *)
+    start_run. { mgo. reflexivity. }
+    eexists. split; [exact Hrun|].
+    constructor.
+    + exact Jb.
+    + exact Jh.
+    + intros l. destruct l as [| | | | | | | |n0|i0|i0|i0]; try solve [frames s m Jo Hrun].
+      cbn. rewrite HSess. reflexivity.
+    + intros i. apply (cmd_frame s m _ _ _ i (Jc i) Hrun); try reflexivity.
+      unfold sess_live. rewrite Hsess. contradiction.
+    + intros i. apply (tmr_frame s m _ _ _ i (Jt i) Hrun); reflexivity.
+    + intros n0. apply (msg_frame s m _ _ _ n0 (Jm n0) Hrun); reflexivity.
+    + sset. exact Jj2.
+    + exact Jl.
+    + sset. intros H. specialize (Jr H). rewrite Hsess in Jr. contradiction.
 Qed.
 
 Lemma ok_RJoinAck s m s' evs : J s m -> step repaired s RJoinAck = Some (s', evs) ->
   exists m', mon_run m evs = Some m' /\ J s' m'.
 Proof.
   intros HJ Hs. sstep Hs.
-  destruct (joinst s) as [|n|n|] eqn:Hjs; try discriminate. inv_some Hs.
-  jdestruct HJ. rewrite Hjs in Jj.
-  pose proof (Jo (LMsg n)) as HM. cbn in HM. rewrite Jj in HM.
-  start_run. { mgo. reflexivity. }
-  eexists. split; [exact Hrun|].
-  constructor.
-  - exact Jb.
-  - exact Jh.
-  - intros l. destruct l as [| | | | | | | |n0|i0|i0|i0]; try solve [frames s m Jo Hrun].
-    destruct (Nat.eq_dec n0 n) as [->|Hn].
-    + refine (own_frame s m _ _ (LMsg n) false (Jo (LMsg n)) Hrun _ _); [qsolve|]. cbn. rewrite Jj. discriminate.
-    + neq_facts. frames s m Jo Hrun.
-  - intros i. apply (cmd_frame s m _ _ _ i (Jc i) Hrun); try reflexivity. auto.
-  - intros i. apply (tmr_frame s m _ _ _ i (Jt i) Hrun); reflexivity.
-  - intros n0. apply (msg_frame s m _ _ _ n0 (Jm n0) Hrun); reflexivity.
-  - sset. exact I.
-  - exact Jl.
-  - exact Jr.
+  destruct (joinst s) as [|n|n| |n|] eqn:Hjs; try discriminate; inv_some Hs;
+    jdestruct HJ; rewrite Hjs in Jj;
+    (pose proof (Jo (LMsg n)) as HM; cbn in HM; rewrite Jj in HM).
+  - (* joined *)
+    start_run. { mgo. reflexivity. }
+    eexists. split; [exact Hrun|].
+    constructor.
+    + exact Jb.
+    + exact Jh.
+    + intros l. destruct l as [| | | | | | | |n0|i0|i0|i0]; try solve [frames s m Jo Hrun].
+      destruct (Nat.eq_dec n0 n) as [->|Hn].
+      * refine (own_frame s m _ _ (LMsg n) false (Jo (LMsg n)) Hrun _ _); [qsolve|]. cbn. rewrite Jj. discriminate.
+      * neq_facts. frames s m Jo Hrun.
+    + intros i. apply (cmd_frame s m _ _ _ i (Jc i) Hrun); try reflexivity. auto.
+    + intros i. apply (tmr_frame s m _ _ _ i (Jt i) Hrun); reflexivity.
+    + intros n0. apply (msg_frame s m _ _ _ n0 (Jm n0) Hrun); reflexivity.
+    + sset. exact I.
+    + exact Jl.
+    + exact Jr.
+  - (* refused *)
+    start_run. { mgo. reflexivity. }
+    eexists. split; [exact Hrun|].
+    constructor.
+    + exact Jb.
+    + exact Jh.
+    + intros l. destruct l as [| | | | | | | |n0|i0|i0|i0]; try solve [frames s m Jo Hrun].
+      destruct (Nat.eq_dec n0 n) as [->|Hn].
+      * refine (own_frame s m _ _ (LMsg n) false (Jo (LMsg n)) Hrun _ _); [qsolve|]. cbn. rewrite Jj. discriminate.
+      * neq_facts. frames s m Jo Hrun.
+    + intros i. apply (cmd_frame s m _ _ _ i (Jc i) Hrun); try reflexivity. auto.
+    + intros i. apply (tmr_frame s m _ _ _ i (Jt i) Hrun); reflexivity.
+    + intros n0. apply (msg_frame s m _ _ _ n0 (Jm n0) Hrun); reflexivity.
+    + sset. exact I.
+    + exact Jl.
+    + exact Jr.
 Qed.
 
 Lemma ok_RPush n s m s' evs : J s m -> step repaired s (RPush n) = Some (s', evs) ->
@@ -764,7 +808,7 @@ Proof.
   - intros n0. destruct (Nat.eq_dec n0 n) as [->|Hn].
     + unfold msg_ok. sset. rewrite updn_same. exact I.
     + neq_facts. apply (msg_frame s m _ _ _ n0 (Jm n0) Hrun); [sset; unfold updn; rw_neq; reflexivity | qsolve].
-  - sset. destruct (joinst s) as [|n0|n0|]; try exact Jj; try contradiction.
+  - sset. destruct (joinst s) as [|n0|n0| |n0|]; try exact Jj; try contradiction.
   - exact Jl.
   - exact Jr.
 Qed.
@@ -773,21 +817,27 @@ Lemma ok_RStop s m s' evs : J s m -> step repaired s RStop = Some (s', evs) ->
   exists m', mon_run m evs = Some m' /\ J s' m'.
 Proof.
   intros HJ Hs. sstep Hs.
-  destruct (reader_free s) eqn:Hrf; [|discriminate]. inv_some Hs.
-  apply reader_free_inv in Hrf. destruct Hrf as [Hb [Hlv Hjn]].
+  destruct (reader_can_stop s) eqn:Hrf; [|discriminate].
+  apply reader_can_stop_inv in Hrf. destruct Hrf as [Hb [Hlv Hjn]].
   jdestruct HJ. rewrite Hlv in Jl. destruct Jl as [Jl1 [Jl2 Jl3]].
-  start_run. { mgo. reflexivity. }
-  eexists. split; [exact Hrun|].
-  constructor.
-  - exact Jb.
-  - exact Jh.
-  - intros l. destruct l as [| | | | | | | |n0|i0|i0|i0]; solve [frames s m Jo Hrun].
-  - intros i. apply (cmd_frame s m _ _ _ i (Jc i) Hrun); try reflexivity. auto.
-  - intros i. apply (tmr_frame s m _ _ _ i (Jt i) Hrun); reflexivity.
-  - intros n0. apply (msg_frame s m _ _ _ n0 (Jm n0) Hrun); reflexivity.
-  - exact Jj.
-  - sset. cbn [sent updk tok_eqb]. auto.
-  - exact Jr.
+  assert (Hcommon : forall s1 evs1 lv, (lv = LvSent \/ lv = LvStopped) -> s1 = set_leavest s lv ->
+            (exists m', mon_run m evs1 = Some m' /\
+                        (forall l, own_rel s m' l) /\ (forall i, cmd_ok s m' i) /\ (forall i, tmr_ok s m' i) /\ (forall n, msg_ok s m' n) /\
+                        sent m' KJoin = sent m KJoin /\ sent m' KJoinAck = sent m KJoinAck /\
+                        (lv = LvSent -> sent m' KLeaveAck = false /\ sent m' KStop = false)) ->
+            exists m', mon_run m evs1 = Some m' /\ J s1 m').
+  { intros s1 evs1 lv Hlvc -> [m' [Hr [Ho [Hc [Ht [Hm [Hs1 [Hs2 Hs3]]]]]]]]. exists m'. split; [exact Hr|].
+    constructor; sset; auto.
+    - destruct (joinst s); rewrite ?Hs1, ?Hs2; exact Jj.
+    - destruct Hlvc as [->| ->]; [apply Hs3; reflexivity | exact I]. }
+  destruct (joinst s) as [|n|n| |n|] eqn:Hjs; try contradiction; inv_some Hs.
+  all: refine (Hcommon _ _ _ _ eq_refl _); [auto|].
+  all: (start_run_in; [mgo; reflexivity|]); eexists; (split; [exact Hrun|]);
+       (split; [intros l; destruct l as [| | | | | | | |n0|i0|i0|i0]; solve [frames s m Jo Hrun]|]);
+       (split; [intros i; apply (cmd_frame s m _ _ _ i (Jc i) Hrun); try reflexivity; auto|]);
+       (split; [intros i; apply (tmr_frame s m _ _ _ i (Jt i) Hrun); reflexivity|]);
+       (split; [intros n0; apply (msg_frame s m _ _ _ n0 (Jm n0) Hrun); reflexivity|]);
+       cbn [sent updk tok_eqb]; repeat split; auto; try discriminate.
 Qed.
 
 Lemma ok_MLeave s m s' evs : J s m -> step repaired s MLeave = Some (s', evs) ->
@@ -1397,9 +1447,10 @@ Proof.
   - intros i0. apply (tmr_frame s m _ _ _ i0 (Jt i0) Hrun); reflexivity.
   - intros n0. destruct (Nat.eq_dec n0 n) as [->|Hn]; [|msg_others s m Jm Hrun n0].
     unfold msg_ok. sset. rewrite updn_same. exact I.
-  - sset. destruct (joinst s) as [|n0|n0|]; try exact Jj; unfold updn.
+  - sset. destruct (joinst s) as [|n0|n0| |n0|]; try exact Jj; unfold updn.
     + destruct Jj as [Jj1 [Jj2 Jj3]]. repeat split; auto.
       destruct (Nat.eqb_spec n0 n) as [->|]; [congruence | exact Jj2].
+    + destruct (Nat.eqb_spec n0 n) as [->|]; [congruence | exact Jj].
     + destruct (Nat.eqb_spec n0 n) as [->|]; [congruence | exact Jj].
   - exact Jl.
   - exact Jr.
@@ -1442,9 +1493,10 @@ Proof.
     destruct (tst s i); try exact H0; try (destruct H0; split; auto); reflexivity.
   - intros n0. destruct (Nat.eq_dec n0 n) as [->|Hn]; [|msg_others s m Jm Hrun n0].
     unfold msg_ok. sset. rewrite updn_same. exact I.
-  - sset. destruct (joinst s) as [|n0|n0|]; try exact Jj; unfold updn.
+  - sset. destruct (joinst s) as [|n0|n0| |n0|]; try exact Jj; unfold updn.
     + destruct Jj as [Jj1 [Jj2 Jj3]]. repeat split; auto.
       destruct (Nat.eqb_spec n0 n) as [->|]; [congruence | exact Jj2].
+    + destruct (Nat.eqb_spec n0 n) as [->|]; [congruence | exact Jj].
     + destruct (Nat.eqb_spec n0 n) as [->|]; [congruence | exact Jj].
   - exact Jl.
   - exact Jr.
@@ -1647,3 +1699,80 @@ Qed.
 
 Theorem race_free : forall sched, races (trace (step repaired) init sched) = [].
 Proof. intros sched. destruct (conn_disciplined sched) as [m Hm]. exact (mon_sound _ _ Hm). Qed.
+
+(* ================================================================ [model_acc] is exact
+   [performs] (tie (i)) is membership in [model_acc], the accesses along ONE schedule, [cover_sched].  No
+   schedule of the model performs a (goroutine class, location class, mode) outside it. *)
+Definition acc_in (a : gclass * lclass * bool) : bool :=
+  existsb (fun b => match a, b with (g, x, w), (g', x', w') => gclass_eqb g g' && lclass_eqb x x' && Bool.eqb w w' end) model_acc.
+
+Lemma acc_classes_app a b : acc_classes (a ++ b) = acc_classes a ++ acc_classes b.
+Proof.
+  induction a as [|e a IH]; cbn [app acc_classes]; [reflexivity|].
+  destruct e; cbn [acc_classes]; rewrite ?IH; reflexivity.
+Qed.
+
+(* the object a caller is handed as the answer is a message, a reply or a freshly made one *)
+Lemma crepl_class s m i l : J s m -> cst s i = CRepl l ->
+  match lclass_of l with XMsg | XAct | XReply | XFin => True | _ => False end.
+Proof.
+  intros HJ E. pose proof (j_cmd _ _ HJ i) as Hc. unfold cmd_ok in Hc. rewrite E in Hc.
+  pose proof (j_own _ _ HJ l) as Ho.
+  destruct l; cbn [lclass_of]; try exact I; cbn [own_rel owner_of] in Ho; try congruence.
+  - destruct Ho as [ts [Ho _]]. congruence.
+  - destruct Ho as [ts [Ho _]]. congruence.
+  - rewrite Hc in Ho. destruct (sess s); try discriminate; injection Ho as Ho; discriminate.
+Qed.
+
+Lemma step_acc_in s m c s' evs : J s m -> step repaired s c = Some (s', evs) ->
+  forallb acc_in (acc_classes evs) = true.
+Proof.
+  intros HJ H. pose proof (j_hdr _ _ HJ) as Hh.
+  destruct c; cbn [step repaired v_share_header v_clear_handles v_log_serial v_alias_buf] in H;
+    repeat match type of H with
+           | context [if ?b then _ else _] => destruct b
+           | context [match ?x with _ => _ end] => destruct x eqn:?
+           end;
+    try discriminate; injection H as <- <-; rewrite ?Hh; try (vm_compute; reflexivity).
+  match goal with E : cst s ?i = CRepl ?l |- _ => pose proof (crepl_class s m i l HJ E) as Hl end.
+  destruct l; cbn [lclass_of] in Hl; try contradiction; vm_compute; reflexivity.
+Qed.
+
+Definition GoodAcc (s : st) (tr : list ev) : Prop := Good s tr /\ forallb acc_in (acc_classes tr) = true.
+
+Lemma GoodAcc_step s tr c s' o : GoodAcc s tr -> step repaired s c = Some (s', o) -> GoodAcc s' (tr ++ o).
+Proof.
+  intros [HG Ha] Hs. split; [exact (Good_step s tr c s' o HG Hs)|].
+  rewrite acc_classes_app, forallb_app, Ha. cbn [andb].
+  destruct HG as [[-> ->]|[m [_ HJ]]].
+  - destruct (init_only_boot c s' o Hs) as [_ ->]. vm_compute. reflexivity.
+  - exact (step_acc_in s m c s' o HJ Hs).
+Qed.
+
+Theorem model_acc_exact : forall sched a,
+  In a (acc_classes (trace (step repaired) init sched)) -> acc_in a = true.
+Proof.
+  intros sched a Hin.
+  assert (H : GoodAcc (final (step repaired) init sched) (trace (step repaired) init sched)).
+  { apply (run_invariant_all _ _ _ (step repaired) GoodAcc GoodAcc_step sched init).
+    split; [left; split; reflexivity | reflexivity]. }
+  destruct H as [_ H]. rewrite forallb_forall in H. exact (H a Hin).
+Qed.
+
+(* ... and what [performs] accepts is performed: by a write when a write is asked for, by any access otherwise *)
+Lemma gclass_eqb_eq a b : gclass_eqb a b = true -> a = b.
+Proof. destruct a, b; cbn; intros H; try discriminate; reflexivity. Qed.
+Lemma lclass_eqb_eq a b : lclass_eqb a b = true -> a = b.
+Proof. destruct a, b; cbn; intros H; try discriminate; reflexivity. Qed.
+Lemma model_acc_is_cover : model_acc = acc_classes (trace (step repaired) init cover_sched).
+Proof. vm_compute. reflexivity. Qed.
+
+Lemma performs_witness : forall g x w, performs g x w = true ->
+  exists sched w', In (g, x, w') (acc_classes (trace (step repaired) init sched)) /\ (w = true -> w' = true).
+Proof.
+  intros g x w H. unfold performs in H. rewrite existsb_exists in H. destruct H as [[[g' x'] w'] [Hin Hb]].
+  apply andb_prop in Hb. destruct Hb as [Hb Hw]. apply andb_prop in Hb. destruct Hb as [Hg Hx].
+  apply gclass_eqb_eq in Hg. apply lclass_eqb_eq in Hx. subst g' x'.
+  exists cover_sched, w'. split; [rewrite <- model_acc_is_cover; exact Hin|].
+  intros ->. destruct w'; [reflexivity | discriminate].
+Qed.
